@@ -12,6 +12,7 @@ package keeper
 //@ modifies bank.bal, bank.supply
 //@ ensures [mints_exactly_the_coins] err == nil ==> bank.supply == old(bank.supply) + coins(newCoins) && bank.bal[module("mint")] == old(bank.bal[module("mint")]) + coins(newCoins)
 //@ ensures [no_change_on_error] err != nil ==> bank.supply == old(bank.supply) && bank.bal == old(bank.bal)
+//@ ensures [never_fails] err == nil
 //@ ensures [other_accounts_untouched] forall a addr :: a != module("mint") ==> bank.bal[a] == old(bank.bal[a])
 
 //@ func (k Keeper).SendInflationaryRewards(ctx, coins) (err)
@@ -23,6 +24,7 @@ package keeper
 //@ ensures [mint_account_debited_whole] err == nil ==> bank.bal[module("mint")] == old(bank.bal[module("mint")]) - coins(coins)
 //@ ensures [other_accounts_untouched] forall a addr :: a != module("mint") && a != module("fee_collector") && a != module("time_based_rewards") ==> bank.bal[a] == old(bank.bal[a])
 //@ ensures [no_change_on_error] err != nil ==> bank.bal == old(bank.bal)
+//@ ensures [pays_out_whenever_the_mint_account_holds_the_coins] bank.bal[module("mint")] >= coins(coins) ==> err == nil
 
 //@ func (k msgServer).Init(goCtx, msg) (resp, err)
 //@ requires [msg_present] msg != nil
